@@ -84,6 +84,15 @@ func NewSparseFile(name string, idx Index, s Store, opt SparseFileOptions) (*Spa
 		}
 	}
 
+	// We're starting over with an unpopulated file. A state file left behind by
+	// an earlier run doesn't describe it, don't let a later start pick it up if
+	// this one doesn't get to save its own state.
+	if opt.StateSaveFile != "" {
+		if err := os.Remove(opt.StateSaveFile); err != nil && !os.IsNotExist(err) {
+			return nil, err
+		}
+	}
+
 	// Create the new file at full size, that was we can skip loading null-chunks,
 	// this should be a NOP if the file matches the index size already.
 	if err = f.Truncate(idx.Length()); err != nil {
